@@ -91,6 +91,18 @@ def check_range_perm_known_thetamax(case):
     A = gen.orientations(case["tex"])
     if ref_mindex.pair_angles(A, case["sys"]).max() >= 89.5:
         raise Skip("known finding: pair beyond the truncated maximum angle")
+    return check_range_perm_known_fewpairs(case)
+
+
+def check_range_perm_known_fewpairs(case):
+    """Known findings R1/R2: the (wrong) misorientation angles of *all* pairs can fall outside
+    [0, theta_max], which leaves the histogram empty and the index NaN. This can only happen
+    for sets of 2 or 3 grains (<= 3 pairs); exactly that outcome is tolerated there."""
+    A = gen.orientations(case["tex"])
+    if len(A) <= 3:
+        m = float(sut(D.misorientation_index, np.ascontiguousarray(A), _sys(case)))
+        if np.isnan(m):
+            raise Skip("known finding: empty misorientation histogram for <= 3 pairs")
     return check_range_perm(case)
 
 
@@ -220,7 +232,11 @@ ORACLES = [
         m_case(60),
         check_range_perm,
         classify=by_sys,
-        known_models={"tetragonal": check_range_perm_known_thetamax, "hexagonal": check_range_perm_known_thetamax},
+        known_models={
+            "tetragonal": check_range_perm_known_thetamax,
+            "hexagonal": check_range_perm_known_thetamax,
+            "orthorhombic": check_range_perm_known_fewpairs,
+        },
         quick=120,
         thorough=200,
     ),
